@@ -27,6 +27,7 @@
 //!   R12 invocations of the crate's own single-rule macro_rules macros (src/lib.rs) are expanded textually
 //!   R10h (`//@loop n iter=it hoist`) `for P in E {` -> `let __itN = verif_hoist(E); let ghost __itsN = __itN@; for P in it: __itN {`
 //!   R14 (with R10h) `V.into_iter().rev()` -> `verif_rev_vec(V)`
+//!   R17 (`//@rename_call FROM TO`) method calls `.FROM(..)` -> `.TO(..)`
 //!   R16 (`//@binop OP N FNAME`) the N-th binary expression `L OP R` -> `FNAME(L, R)`
 //!   R15 (`//@loop n halfopen=1`) `for P in A..=B` -> `for P in A..verif_incl_end(B)` (requires B + 1 representable)
 //!   R13 reference patterns in a for-loop pattern: `&x` -> `__ref_x` + `let x = *__ref_x;` at the start of the body
@@ -146,7 +147,7 @@ fn load_template(path: &Path, mode: &str, items: &mut Vec<TItem>) {
                     cur.as_mut().unwrap_or_else(|| die(4, format!("{}:{}: stray source_sig", pname, ln))).source_sig =
                         Some(tail.to_string());
                 }
-                "sig" | "spec" | "loop" | "at" | "closure" | "binop" => {
+                "sig" | "spec" | "loop" | "at" | "closure" | "binop" | "rename_call" => {
                     let c = cur.as_mut().unwrap_or_else(|| die(4, format!("{}:{}: stray section", pname, ln)));
                     let (pos, kv) = parse_kv(tail);
                     c.sections.push(Section { kind: word.to_string(), args: pos, tags: kv.get("tags").cloned(), kv: kv.clone(), text: String::new() });
@@ -320,6 +321,8 @@ struct BodyScan {
     incl_ranges: BTreeMap<usize, (usize, usize, usize, usize)>,
     // binary expressions by operator token, in pre-order: (lhs range, rhs range)
     binops: BTreeMap<String, Vec<((usize, usize), (usize, usize))>>,
+    // method-call identifiers by name: byte range of the identifier
+    method_idents: BTreeMap<String, Vec<(usize, usize)>>,
     // calls by name: (enclosing stmt)
     calls: BTreeMap<String, Vec<StmtInfo>>,
     lets: BTreeMap<String, Vec<StmtInfo>>,
@@ -715,6 +718,8 @@ impl<'a, 'ast> Visit<'ast> for Scanner<'a> {
             }
         }
         self.record_call(c.method.to_string());
+        let mr = self.src.range(c.method.span());
+        self.scan.method_idents.entry(c.method.to_string()).or_default().push(mr);
         syn::visit::visit_expr_method_call(self, c);
     }
 }
@@ -916,6 +921,16 @@ fn main() {
                                 } else {
                                     edits.push((*xo, *xo, seq, format!("{}: ", nm), json!({"kind": "rewrite", "rule": "R10", "fn": id, "tags": body_tags})));
                                 }
+                                seq += 1;
+                            }
+                        }
+                        "rename_call" => {
+                            // R17 (opt-in): `//@rename_call FROM TO`: every method call `.FROM(..)` of the body is spelled `.TO(..)`
+                            // (ndarray's `.view()` collides with the spec function `view` behind Verus' `@`)
+                            let from = s.args.get(0).cloned().unwrap_or_default();
+                            let to = s.args.get(1).cloned().unwrap_or_else(|| die(4, format!("rename_call needs two names in {}", id)));
+                            for (a, b) in scan.method_idents.get(&from).cloned().unwrap_or_default() {
+                                edits.push((a, b, seq, to.clone(), json!({"kind": "rewrite", "rule": "R17", "fn": id, "tags": body_tags})));
                                 seq += 1;
                             }
                         }
